@@ -93,7 +93,7 @@ def rule_adj(chk):
     ok = crates <= allowed and all(("parse" in x or "match_" in x or x.startswith("expr_") or x in ("locate",)) for x in rd)
     chk.ob("C14.adj/read-only-by-parsers", ok, "adjacency is inspected only by: %s" % rd if ok else
            "token adjacency is inspected outside the operator / template-argument parsers: %s" % rd, "parser / condition_parser", sample={"readers": rd})
-    chk.floor("C14.floor/adjacency-readers", len(readers), 4, "functions matching on FollowedBy")
+    chk.floor("C14.floor/adjacency-readers", len(readers), 3, "functions matching on FollowedBy")
     mp = f.fn("parse", "rssl_preprocess", self_ty="Macro")
     import c12
     mp2, tab = c12.macro_parse_model(f) if mp else (None, {})
